@@ -523,6 +523,22 @@ func padField(s string, n int) []byte {
 }
 
 // BuildSTL assembles an EBU STL file. dsc: '0' open subtitling, '1' teletext level 1.
+// STLVariant tweaks header fields of the next BuildSTL call: TNB is the "total number of TTI blocks" field as text
+// ("" = the true count; it may be blank or stale in real files), CCT the character code table number ("00" Latin).
+type STLVariant struct{ TNB, CCT string }
+
+// BuildSTLVariant is BuildSTL with header field overrides.
+func BuildSTLVariant(fps int, dsc byte, title string, tcp string, blocks [][]byte, v STLVariant) []byte {
+	b := BuildSTL(fps, dsc, title, tcp, blocks)
+	if v.CCT != "" {
+		copy(b[12:14], v.CCT)
+	}
+	if v.TNB != "" {
+		copy(b[238:243], padField(v.TNB, 5))
+	}
+	return b
+}
+
 func BuildSTL(fps int, dsc byte, title string, tcp string, blocks [][]byte) []byte {
 	g := make([]byte, 0, 1024)
 	g = append(g, "850"...)
@@ -636,7 +652,15 @@ func GenSTL(r *prng.R, idx int) Doc {
 	if r.Bool(0.3) {
 		tcp = "00000100"
 	}
-	return Doc{Name: fmt.Sprintf("gen-stl-%d-dsc%c", idx, dsc), Format: "stl", Data: BuildSTL(fps, dsc, asciiSentence(r, 1, 2), tcp, blocks), Cues: cues, Gen: true}
+	// the block count announced in the header is not always right in real files: blank, or stale (smaller than the file)
+	v := STLVariant{}
+	switch r.Intn(6) {
+	case 0:
+		v.TNB = "     "
+	case 1:
+		v.TNB = fmt.Sprintf("%05d", len(blocks)/2)
+	}
+	return Doc{Name: fmt.Sprintf("gen-stl-%d-dsc%c", idx, dsc), Format: "stl", Data: BuildSTLVariant(fps, dsc, asciiSentence(r, 1, 2), tcp, blocks, v), Cues: cues, Gen: true}
 }
 
 // ---- assembly --------------------------------------------------------------
